@@ -199,7 +199,7 @@ def case_model(rng, tier, i, degen=False, force_name=None, force_mode=None, forc
         mode = force_mode or str(rng.choice(DEGEN_MODES))
         clean = data
         data = degenerate(rng, name, data, mode)
-        if mode in ('zero', 'repeat', 'rank1', 'mixedscale') and rng.random() < 0.5:
+        if mode in ('zero', 'repeat', 'rank1', 'mixedscale') and (rng.random() < 0.5 or (force_single and mode == 'zero')):
             fit_data = clean      # a model fitted on one segment is applied to another one that contains the degenerate frames
     style = 'onehot' if (degen and rng.random() < 0.4 and N >= K) else ['positive', 'dirichlet'][int(rng.integers(0, 2))]
     init = mm.make_init(rng, K, N, lead, style)
